@@ -206,9 +206,11 @@ def c_image(img):
 # ---- oracle: the fields that went into the encoder come back ----
 def oracle_image(inp):
     """returns (key, message) or None"""
-    spec = inp
-    data = enc_image(spec)
-    img = attempt(lambda: parse_file(data, 'oracle'))
+    return judge_image(inp, attempt(lambda: parse_file(enc_image(inp), 'oracle')))
+
+
+def judge_image(spec, img):
+    """spec: what went into the encoder; img: UpgradeImage(file) or the exception it raised"""
     if isinstance(img, Exception):
         return ('UpgradeImage:raises', 'well-formed image not parsed: %s %s' % (type(img).__name__, img))
     h, s = img.header, spec['header']
@@ -314,42 +316,57 @@ def c_exch(x):
     return '(exr %d %d %d "%s" %s)' % (x.netfn, x.cmd, x.lun, x.data.hex(), C.c_err(C.exc_class(x.reply)))
 
 
-def run_upload(binary, bs, plan, timeout, interval, retry=None, faults=None, float_clock=False):
-    """Drive the real Ipmi.upload_binary against the reference device.
-    faults: {exchange index: 'timeout' | bytes} injected in front of the device (correspondence only)."""
-    import pyipmi.errors as E
-    hpm = _hpm()
-    dev = Device(plan)
-    n = [0]
+class Session:
+    """One Ipmi object on one scripted interface, used for any number of uploads in a row (each
+    against its own fresh reference device: a new upload session of the target)."""
 
-    def handler(netfn, cmd, lun, data, req):
-        i = n[0]
-        n[0] += 1
-        f = (faults or {}).get(i)
+    def __init__(self):
+        self.cur = None
+        self.ipmi, self.itf = F.connect(self._handler)
+
+    def _handler(self, netfn, cmd, lun, data, req):
+        import pyipmi.errors as E
+        st = self.cur
+        i = st['n']
+        st['n'] += 1
+        f = st['faults'].get(i)
         if f == 'timeout':
             raise E.IpmiTimeoutError()
         if f is not None:
-            dev.handle(netfn, cmd, lun, data)
+            st['dev'].handle(netfn, cmd, lun, data)
             return bytes(f)
-        return dev.handle(netfn, cmd, lun, data)
-    ipmi, itf = F.connect(handler)
-    if bs != 22:
-        ipmi._determine_max_block_size = lambda: bs
-    clock = Clock()
-    if float_clock:
-        clock.now = 1000.0
-    real = hpm.time
-    hpm.time = clock
-    try:
-        kw = {}
-        if timeout is not None:
-            kw.update(timeout=timeout, interval=interval)
-        if retry is not None:
-            kw['retry'] = retry
-        out = attempt(lambda: ipmi.upload_binary(binary, **kw))
-    finally:
-        hpm.time = real
-    return out, itf.log, clock.sleeps, dev
+        return st['dev'].handle(netfn, cmd, lun, data)
+
+    def upload(self, binary, bs, plan, timeout, interval, retry=None, faults=None, float_clock=False):
+        """faults: {exchange index within this upload: 'timeout' | bytes} injected in front of the
+        device (correspondence only)."""
+        hpm = _hpm()
+        dev = Device(plan)
+        self.cur = {'dev': dev, 'n': 0, 'faults': {int(k): v for k, v in (faults or {}).items()}}
+        start = len(self.itf.log)
+        self.ipmi.__dict__.pop('_determine_max_block_size', None)
+        if bs != 22:
+            self.ipmi._determine_max_block_size = lambda: bs
+        clock = Clock()
+        if float_clock:
+            clock.now = 1000.0
+        real = hpm.time
+        hpm.time = clock
+        try:
+            kw = {}
+            if timeout is not None:
+                kw.update(timeout=timeout, interval=interval)
+            if retry is not None:
+                kw['retry'] = retry
+            out = attempt(lambda: self.ipmi.upload_binary(binary, **kw))
+        finally:
+            hpm.time = real
+        return out, self.itf.log[start:], clock.sleeps, dev
+
+
+def run_upload(binary, bs, plan, timeout, interval, retry=None, faults=None, float_clock=False):
+    """Drive the real Ipmi.upload_binary of a NEW Ipmi object against the reference device."""
+    return Session().upload(binary, bs, plan, timeout, interval, retry, faults, float_clock)
 
 
 def first_fail(plan, nblocks):
@@ -363,6 +380,11 @@ def oracle_upload(inp):
     """the property text on the recorded requests; returns (key, message) or None"""
     binary, bs, plan = bytes.fromhex(inp['binary']), inp['bs'], [tuple(a) for a in inp['plan']]
     out, log, sleeps, dev = run_upload(binary, bs, plan, inp.get('timeout'), inp.get('interval'))
+    return judge_upload(binary, bs, plan, out, log, dev)
+
+
+def judge_upload(binary, bs, plan, out, log, dev):
+    """one upload, judged from block number 0 on the requests the device recorded for it"""
     nblocks = (len(binary) + bs - 1) // bs
     ff = first_fail(plan, nblocks)
     blocks = [(i, x) for i, x in enumerate(log) if x.netfn == 0x2c and x.cmd == 0x32]
@@ -400,7 +422,56 @@ def oracle_upload(inp):
     return None
 
 
-ORACLES = {'image': oracle_image, 'upload': oracle_upload}
+def run_history(calls, each=None):
+    """Uploads in a row in THIS process: call['obj'] names the Ipmi object (created at its first
+    use, so a second object appears later in the history).  Every upload without injected transport
+    faults is judged on its own, from block number 0.  each(n, call, out, log, sleeps, dev) sees every step."""
+    sessions = {}
+    verdict = None
+    for n, c in enumerate(calls):
+        ses = sessions.get(c['obj'])
+        if ses is None:
+            ses = sessions[c['obj']] = Session()
+        binary, plan = bytes.fromhex(c['binary']), [tuple(a) for a in c['plan']]
+        out, log, sleeps, dev = ses.upload(binary, c['bs'], plan, c['timeout'], c['interval'], c.get('retry'), c.get('faults'))
+        if each:
+            each(n, c, out, log, sleeps, dev)
+        if verdict is None and not c.get('faults'):
+            r = judge_upload(binary, c['bs'], plan, out, log, dev)
+            if r:
+                verdict = ('upload_binary:call-depends-on-earlier-calls',
+                           'upload %d of the history (object %d, %d bytes): %s [%s]' % (n, c['obj'], len(binary), r[1], r[0]))
+    return verdict
+
+
+def run_history_fresh(calls):
+    """verdict for a (shrunk) history on fresh Ipmi objects (this process; class-level state, if any, persists)"""
+    return run_history(calls)
+
+
+def oracle_upload_seq(inp):
+    return run_history(inp['calls'])
+
+
+def image_history(calls, each=None):
+    """several images parsed in one process (same file twice, different files)"""
+    verdict = None
+    for n, spec in enumerate(calls):
+        img = attempt(lambda: parse_file(enc_image(spec), 'seq'))
+        if each:
+            each(n, spec, img)
+        r = judge_image(spec, img)
+        if r and verdict is None:
+            verdict = ('UpgradeImage:call-depends-on-earlier-calls', 'image %d of the history: %s [%s]' % (n, r[1], r[0]))
+    return verdict
+
+
+def oracle_image_seq(inp):
+    return image_history(inp['calls'])
+
+
+ORACLES = {'image': oracle_image, 'upload': oracle_upload, 'upload_seq': oracle_upload_seq,
+           'image_seq': oracle_image_seq}
 
 
 def replay(data):
@@ -523,11 +594,8 @@ def run(ctx):
         image_case(d, 'image-malformed-' + kind, kind)
 
     # ------------------------------------------------------------------ uploads
-    def upload_case(binary, bs, plan, timeout=2000, interval=100, retry=None, faults=None, kind='upload', dflt=False):
-        out, log, sleeps, dev = run_upload(binary, bs, plan, None if dflt else timeout, interval, retry, faults,
-                                           float_clock=dflt)
-        if dflt:     # default arguments: timeout=2 s, interval=0.1 s; the model counts milliseconds
-            sleeps = [int(round(x * 1000)) for x in sleeps]
+    def emit_upload(out, log, sleeps, dev, binary, bs, plan, timeout, interval, retry, faults, kind):
+        """the model prog replayed from a clean state against the replies recorded for this one upload"""
         outcome = '(Err %s)' % C.c_err(C.exc_class(out)) if isinstance(out, Exception) else '(Ok tt)'
         tr = C.c_list([c_exch(x) for x in log])
         args = '%s %s %d %d %s' % (C.c_nat(bs), C.c_hex(binary), timeout, interval, C.c_Z(3 if retry is None else retry))
@@ -536,6 +604,14 @@ def run(ctx):
             add('chk_upload %s %s' % (args, tail), (kind, len(binary), bs, len(log)))
         else:
             add('chk_upload_dev %s %s %s' % (args, c_plan(plan), tail), (kind, len(binary), bs, len(log)))
+
+    def upload_case(binary, bs, plan, timeout=2000, interval=100, retry=None, faults=None, kind='upload', dflt=False):
+        out, log, sleeps, dev = run_upload(binary, bs, plan, None if dflt else timeout, interval, retry, faults,
+                                           float_clock=dflt)
+        if dflt:     # default arguments: timeout=2 s, interval=0.1 s; the model counts milliseconds
+            sleeps = [int(round(x * 1000)) for x in sleeps]
+        emit_upload(out, log, sleeps, dev, binary, bs, plan, timeout, interval, retry, faults, kind)
+        if not faults:
             oracle('upload', {'binary': binary.hex(), 'bs': bs, 'plan': [list(a) for a in plan],
                               'timeout': None if dflt else timeout, 'interval': None if dflt else interval})
         D.add((kind, binary, bs, tuple(plan), timeout, interval, retry, repr(faults)), True, kind)
@@ -592,6 +668,77 @@ def run(ctx):
         upload_case(rand_bytes(rng, ln), 22, plan, retry=rng.choice([None, None, 1, 2, 0, -1]), faults=faults,
                     timeout=rng.choice([2000, 300, 0]), kind='upload-faults')
 
+    # ------------------------------------------------------------------ histories
+    # The models are stateless per call; state kept by the implementation between calls only shows
+    # in SEQUENCES on the same objects in one process.  Every step is compared with the model prog
+    # replayed from a clean state and judged by the oracle from block number 0.
+    def step(obj, nblocks, kind, bs=22):
+        """kind: ok | inprogress | refuse | xtimeout (transport time-out, retry=1 -> IpmiTimeoutError)
+        | waitout (in-progress longer than the wait's time-out: the wait gives up, the upload goes on)"""
+        ln = 0 if nblocks == 0 else rng.randrange((nblocks - 1) * bs + 1, nblocks * bs + 1)
+        c = {'obj': obj, 'binary': rand_bytes(rng, ln).hex(), 'bs': bs, 'timeout': 2000, 'interval': 100,
+             'plan': [['A'] for _ in range(nblocks)]}
+        if kind in ('inprogress', 'refuse', 'xtimeout'):
+            for i in range(nblocks):
+                if rng.random() < 0.35:
+                    c['plan'][i] = ['P', rng.randrange(4)]
+        if kind == 'refuse' and nblocks:
+            k = rng.randrange(nblocks)
+            c['plan'][k] = ['F', rng.choice([0x81, 0x82, 0xc1, 0xc3, 0xd5, 0xff])]
+        if kind == 'xtimeout' and nblocks:
+            k = rng.randrange(nblocks)
+            c['plan'][k] = ['A']
+            # exchange index of block k = k + the status polls before it (each P answer with j
+            # pending polls costs j + 1 polls)
+            idx = k + sum(a[1] + 1 for a in c['plan'][:k] if a[0] == 'P')
+            c['faults'] = {str(idx): 'timeout'}
+            c['retry'] = 1
+        if kind == 'waitout' and nblocks:
+            c['plan'][rng.randrange(nblocks)] = ['P', 25]
+            c['timeout'], c['interval'] = 300, 100
+        return c
+
+    histories = [
+        # success, abort at a late block, success with in-progress answers, abort at block 0, ..., a second
+        # Ipmi object created later, back and forth between the two
+        [step(0, 3, 'inprogress'), step(0, 8, 'refuse'), step(0, 6, 'inprogress'), step(0, 1, 'refuse'), step(0, 4, 'ok'),
+         step(0, 7, 'xtimeout'), step(0, 5, 'ok'), step(0, 4, 'waitout'), step(0, 3, 'ok'),
+         step(1, 4, 'ok'), step(1, 9, 'refuse'), step(0, 2, 'inprogress'), step(1, 5, 'inprogress')],
+        # across the modulo-256 wrap, then again from zero; then an abort beyond the wrap and a restart
+        [step(0, 258, 'ok'), step(0, 3, 'ok'), step(0, 0, 'ok'), step(0, 2, 'inprogress')],
+        # other block sizes through the same object
+        [step(0, 5, 'refuse', bs=7), step(0, 4, 'ok'), step(0, 6, 'xtimeout', bs=3), step(0, 3, 'inprogress', bs=64)],
+    ]
+    kinds = ['ok', 'inprogress', 'inprogress', 'refuse', 'refuse', 'xtimeout', 'waitout']
+    for _ in range(4 if q else 40):
+        histories.append([step(rng.randrange(2), rng.randrange(0, 12), rng.choice(kinds)) for _ in range(rng.randrange(4, 11))])
+    for hist in histories:
+        def each(n, c, out, log, sleeps, dev):
+            emit_upload(out, log, sleeps, dev, bytes.fromhex(c['binary']), c['bs'], [tuple(a) for a in c['plan']],
+                        c['timeout'], c['interval'], c.get('retry'), c.get('faults'), 'upload-history')
+            D.add(('hist', n, c['binary'], repr(c['plan']), repr(c.get('faults'))), True, 'upload-history-step')
+        r = run_history(hist, each)
+        res.evaluations += len(hist)
+        if r and r[0] not in fails:
+            seq = C.shrink_history('C18', 'upload_seq', hist) or hist
+            r2 = run_history_fresh(seq) or r
+            fails[r[0]] = C.Violation(key=r[0], what=r2[1] + ' [history of %d upload(s)]' % len(seq),
+                                      replay={'oracle': 'upload_seq', 'input': {'calls': seq}})
+    # several images in one process: the same file twice, different files in between
+    ihist = [rand_spec(rng, fw_max=80) for _ in range(4 if q else 12)]
+    ihist = [ihist[0], ihist[0], ihist[1], ihist[0]] + ihist[2:] + [ihist[1]]
+
+    def each_img(n, spec, img):
+        data = enc_image(spec)
+        add('chk_parse %s %s' % (C.c_hex(data), c_res(img, c_image)), ('image-history', n, len(data)))
+        D.add(('ihist', n, data), True, 'image-history-step')
+    r = image_history(ihist, each_img)
+    res.evaluations += len(ihist)
+    if r and r[0] not in fails:
+        seq = C.shrink_history('C18', 'image_seq', ihist) or ihist
+        fails[r[0]] = C.Violation(key=r[0], what=r[1] + ' [history of %d image(s)]' % len(seq),
+                                  replay={'oracle': 'image_seq', 'input': {'calls': seq}})
+
     # spread the long cases over the shards (fixed permutation), map the verdicts back
     import random
     perm = list(range(len(terms)))
@@ -609,7 +756,10 @@ def run(ctx):
                 'malformed stream (truncations, bad BCD, unknown types, wrong declared lengths, random bytes); uploads: '
                 'every in-progress subset for 0..10 blocks and every single '
                 'refusal position, lengths 0..6000 across the 256-block wrap with random plans, block sizes 1..255, default '
-                'arguments, transport faults. distinct = distinct canonical inputs (all non-trivial)')
+                'arguments, transport faults; histories: 3 designed + random sequences of uploads (successful, in-progress, '
+                'refused at block k, transport time-out abort, wait time-out) on one Ipmi object and a second one created later, '
+                'and images parsed in a row (same file twice), every step compared with the stateless model and judged from block 0; '
+                'a failing history is confirmed and shrunk in fresh interpreters. distinct = distinct canonical inputs (all non-trivial)')
     pick = [i for i in (0, 600, len(terms) // 2, len(terms) - 1) if i < len(terms)]
     res.samples = [{'term': terms[i][:400], 'case': meta[i]} for i in pick]
     res.oracle_failures = list(fails.values())
